@@ -10,6 +10,9 @@ CLAIMED = {
  'C02': 'monitors of the MIR executor (use-after-free, read of moved-out value/table, double free, destructor twice) never fire on any path of the shape universe, Weak handles included',
  'C03': 'after every drop, for the recorded-adoption closure S of the dropped object: z3 shows pc AND orphaned(S) implies every member destroyed; every object without a strong handle is destroyed in the same call',
  'C06': 'after every operation the strong/weak counters of every live object equal the ledger\'s handle counts for all 2^64 values of the symbolic extras (z3), ptr_eq agrees with identity',
+ 'C04': 'histories that end with every handle dropped: z3-decided paths all end with no RcBox block, link table, Vec or map of the model heap still allocated; with Weak handles outstanding only the bare block remains (w_j symbolic through the weak-drop lemma)',
+ 'C05': 'Weak::upgrade / strong_count / weak_count observed after every operation and from inside every destructor (Weak to self, peers, outsiders) agree with the ledger on every path; a handle returned by upgrade keeps its object alive while held; the block outlives every Weak',
+ 'C16': 'unit: Rc::clone over all 2^64 counter values aborts exactly for 0, MAX-1, MAX and otherwise adds one (z3); scenario: every member destructor of every group shape clones each handle it holds - every path through a clone of a dead handle ends in abort, dropping one changes nothing',
  'C08': 'after every operation the link tables of every live object equal, entry by entry, the graph implied by the adopt/unadopt calls; no zero entry; no entry naming a destroyed object',
 }
 m = json.load(open('MANIFEST.json')) if False else {}
